@@ -13,7 +13,12 @@ Every callable exists in NGEN "generations": the def / class statements below ar
 times (twice by a loop in one scope = the same name defined again in the same scope, once more by
 a second invocation of the enclosing factory = closures of a factory), giving distinct function
 objects, classes and DeduplicateDecorators that all have the same __module__ and __qualname__ and
-all share the class-level DeduplicateDecorator.tasks dict."""
+all share the class-level DeduplicateDecorator.tasks dict.
+
+Scale: `OFan thread fn gen inst sp lo n` (conductor) / `BFan fn gen inst sp lo n` (inside a body) is
+the usual fan-out `[fn.asynq(i) for i in range(lo, lo + n)]` (sp = 1: `fn.asynq(a=i)`): n distinct
+keys registered at the same time, thousands in the big cases.  What the fan-out calls returned is
+reported run-length encoded (compress_trace / compress_got mirror Dedup.v)."""
 import inspect
 import queue
 import threading
@@ -111,6 +116,80 @@ def outval(v):
     return {"Ok": [{"VOther": [{"s": repr(v)[:40]}]}]}
 
 
+def ranges(ids):
+    """sorted ints -> [[lo, hi), ...]"""
+    out = []
+    for i in ids:
+        if out and out[-1][1] == i:
+            out[-1][1] = i + 1
+        else:
+            out.append([i, i + 1])
+    return out
+
+
+# ---- run-length encoding of the compared output: the same functions as Dedup.v compress_trace / compress_got
+def compress_trace(trace):
+    acc = []
+    i = 0
+    n = len(trace)
+    while i < n:
+        (k, a), = trace[i].items()
+        if k == "EFanCall":
+            cid, ctx, r = a
+            seg1 = {"SegErr": [1]} if r == "RTypeErr" else {"SegTask": [r["RTask"][0], 1, r["RTask"][1]]}
+            top = acc[-1] if acc else None
+            if top is not None and "CFan" in top and cid == top["CFan"][0] + top["CFan"][2] and ctx == top["CFan"][1]:
+                f = top["CFan"]
+                f[2] += 1
+                segs = f[3]
+                last = segs[-1]
+                if r == "RTypeErr" and "SegErr" in last:
+                    last["SegErr"][0] += 1
+                elif (r != "RTypeErr" and "SegTask" in last and r["RTask"][0] == last["SegTask"][0] + last["SegTask"][1]
+                      and r["RTask"][1] == last["SegTask"][2]):
+                    last["SegTask"][1] += 1
+                else:
+                    segs.append(seg1)
+            else:
+                acc.append({"CFan": [cid, ctx, 1, [seg1]]})
+            i += 1
+        elif k == "EStart" and i + 1 < n and "EDone" in trace[i + 1]:
+            e, t = a
+            e2, o = trace[i + 1]["EDone"]
+            if e == e2:
+                top = acc[-1] if acc else None
+                if (top is not None and "CRuns" in top and e == top["CRuns"][0] + top["CRuns"][2]
+                        and t == top["CRuns"][1] + top["CRuns"][2] and o == top["CRuns"][3]):
+                    top["CRuns"][2] += 1
+                else:
+                    acc.append({"CRuns": [e, t, 1, o]})
+                i += 2
+            else:
+                acc.append({"CEv": [trace[i]]})
+                i += 1
+        else:
+            acc.append({"CEv": [trace[i]]})
+            i += 1
+    out = []
+    for c in acc:
+        if "CRuns" in c and c["CRuns"][2] == 1:
+            e, t, _, o = c["CRuns"]
+            out += [{"CEv": [{"EStart": [e, t]}]}, {"CEv": [{"EDone": [e, o]}]}]
+        else:
+            out.append(c)
+    return out
+
+
+def compress_got(got):
+    acc = []
+    for cid, o in got:
+        if acc and cid == acc[-1][0] + acc[-1][1] and o == acc[-1][2]:
+            acc[-1][1] += 1
+        else:
+            acc.append([cid, 1, o])
+    return [{"": x} for x in acc]
+
+
 def outerr(e):
     if isinstance(e, VErr):
         return {"Err": [e.vid]}
@@ -184,6 +263,8 @@ class Case(object):
                         case.do_call(e, 0, *a)
                     elif k == "BDirty":
                         case.do_dirty(e, 0, *a)
+                    elif k == "BFan":
+                        case.do_fan(e, 0, *a)
                     else:
                         raise ValueError(st)
             (k, a), = fin.items()
@@ -288,7 +369,7 @@ class Case(object):
         args = [pyval(p) for p in pos]
         kwargs = {NAMES[k[""][0]]: pyval(k[""][1]) for k in kw}
         bnd = self.refbind(fn, gen, inst, pos, kw)
-        inflight = [self.tids[id(t)] for t in self.keep if not t.is_computed()]
+        inflight = ranges([i for i, t in enumerate(self.keep) if not t.is_computed()])   # keep[i] is task i
         running = [self.tids[id(t)] for t in self.keep if t.running]
         known = len(self.tids)
         try:
@@ -307,6 +388,47 @@ class Case(object):
                                       kind=self.kinds[fn], npos=len(pos), kws=sorted(kwargs), bound=bnd, tid=tid,
                                       new=(tid is not None and tid >= known), inflight=inflight, running=running,
                                       was_computed=(None if t is None else bool(t.is_computed())))))
+
+    def do_fan(self, ctx, thread, fn, gen, inst, sp, lo, n):
+        """[fn.asynq(i) for i in range(lo, lo + n)] (sp == 1: fn.asynq(a=i)), all on one thread, nothing runs in between"""
+        c = self.callable(fn, gen, inst)
+        inflight = ranges([i for i, t in enumerate(self.keep) if not t.is_computed()])
+        running = [self.tids[id(t)] for t in self.keep if t.running]
+        known0 = len(self.tids)
+
+        def go():
+            res = []
+            for i in range(lo, lo + max(0, n)):
+                try:
+                    res.append(c.asynq(a=i) if sp == 1 else c.asynq(i))
+                except TypeError:
+                    res.append(None)
+            return res
+        tasks = self.on_thread(thread, go)
+        cid0 = self.ncall
+        segs = []           # [tid0, count, new] / [None, count, False]
+        for t in tasks:
+            cid = self.ncall
+            self.ncall += 1
+            if t is None:
+                self.trace.append({"EFanCall": [cid, ctx, "RTypeErr"]})
+                if segs and segs[-1][0] is None:
+                    segs[-1][1] += 1
+                else:
+                    segs.append([None, 1, False])
+                continue
+            known = len(self.tids)
+            tid = self.tid_of(t)
+            new = tid >= known
+            self.fresh.append((cid, t))
+            self.trace.append({"EFanCall": [cid, ctx, {"RTask": [tid, "true" if new else "false"]}]})
+            if segs and segs[-1][0] is not None and segs[-1][0] + segs[-1][1] == tid and segs[-1][2] == new:
+                segs[-1][1] += 1
+            else:
+                segs.append([tid, 1, new])
+        self.seq.append(("fan", dict(cid0=cid0, ctx=ctx, thread=thread, fn=fn, gen=gen % NGEN, inst=(inst % 2 if fn in (4, 5) else 0),
+                                     kind=self.kinds[fn], sp=sp, lo=lo, n=len(tasks), segs=segs, known=known0,
+                                     inflight=inflight, running=running)))
 
     def do_dirty(self, ctx, thread, fn, gen, inst, pos, kw):
         c = self.callable(fn, gen, inst)
@@ -356,6 +478,8 @@ class Case(object):
                     self.do_call(-1, *a)
                 elif k == "ODirty":
                     self.do_dirty(-1, *a)
+                elif k == "OFan":
+                    self.do_fan(-1, *a)
                 else:
                     break
                 self.pos += 1
@@ -432,7 +556,7 @@ def run_case(c):
             case.worker.stop()
     left = len(DeduplicateDecorator.tasks)
     DeduplicateDecorator.tasks.clear()
-    got = [{"": [cid, case.got[cid]]} for cid in sorted(case.got)]
+    got = compress_got([(cid, case.got[cid]) for cid in sorted(case.got)])
     starts = {}
     for ev in case.seq:
         if ev[0] == "start":
@@ -443,7 +567,7 @@ def run_case(c):
         if t.is_computed():
             e = t.error()
             outcomes[tid] = outerr(e) if e is not None else outval(t.value())
-    return {"out": {"": [case.trace, got, left]},
+    return {"out": {"": [compress_trace(case.trace), got, left]},
             "seq": [list(e) for e in case.seq],
             "starts": {str(k): v for k, v in starts.items()},
             "outcomes": {str(k): v for k, v in outcomes.items()},
